@@ -30,3 +30,15 @@ Proof.
   intros [k [H|[e H]]] Ht; subst o; [left; reflexivity|right]. exists e. split; [reflexivity|]. eapply Ht. reflexivity.
 Qed.
 
+
+(** strings.ToUpper on ASCII text is the byte-wise ASCII upper-casing *)
+Lemma to_upper_u_ascii s : Forall (fun c => c < 128) s -> to_upper_u s = to_upper s.
+Proof.
+  induction s as [|c t IH]; intros H; [reflexivity|].
+  apply Forall_cons_iff in H. destruct H as [Hc Ht]. specialize (IH Ht).
+  unfold to_upper. cbn [map]. fold (to_upper t). rewrite <- IH.
+  destruct t as [|d t'].
+  - destruct c as [|p]; [reflexivity|]. do 8 (destruct p as [p|p|]; try reflexivity; try lia).
+  - destruct c as [|p]; [reflexivity|]. do 8 (destruct p as [p|p|]; try reflexivity; try lia).
+Qed.
+
